@@ -28,7 +28,9 @@ def handle (ws : List String) : String :=
     | some cs =>
       match readNewick cs with
       | .ok trees => s!"ok {trees.length} " ++ " ".intercalate (trees.map NTree.render)
-      | .err _ => "parse"
+      | .err e => "parse:" ++ (match e with
+          | .eos => "eos" | .unterminated => "unterminated" | .malformed => "malformed" | .incomplete => "incomplete"
+          | .duplicate => "duplicate" | .nexus => "nexus" | .data => "data")
       | .internal w => "internal " ++ w
   | ["phylip", strict, inter, syms, text] =>
     match decodeText syms, decodeText text with
